@@ -163,11 +163,11 @@ def ref_resolve(sc):
             final = loc
         elif loc and exists(posixpath.join(posixpath.dirname(conf_path or ''), loc)):
             final = posixpath.join(posixpath.dirname(conf_path or ''), loc)
-        elif exists(dflt):
-            final = dflt
         else:
-            final = None            # nothing the statement covers: abstain
-            abstain[k] = True
+            # "a missing one falls back to the platform default location": whether or not that location
+            # exists yet (a fresh account) - the statement makes no exception, and any other answer opens or
+            # creates the stores somewhere the user never named
+            final = dflt
         out[k] = (scheme, final)
     return out, source, abstain, conf_path
 
